@@ -94,6 +94,7 @@ type Sched struct {
 	aborting   bool
 	WritePref  bool // model Go's writer preference of RWMutex (two-phase write lock)
 	Livelock   bool
+	BranchFrom int // alternatives of steps before this index are not explored (sequential setup)
 }
 
 var (
@@ -291,6 +292,18 @@ func IdleSleep(d time.Duration) {
 	s.park(t, pending{kind: "idle-sleep", obj: d.String(), until: time.Now().Add(d), isIdle: true})
 }
 
+// Mark declares the sequential setup phase finished: the explorer branches
+// only on scheduling decisions taken after this call.
+func Mark() {
+	s := Current()
+	if s == nil {
+		return
+	}
+	s.mu.Lock()
+	s.BranchFrom = len(s.Steps)
+	s.mu.Unlock()
+}
+
 // Fail records a harness-detected violation for the current execution.
 func Fail(sig string) {
 	s := Current()
@@ -454,6 +467,7 @@ type Result struct {
 	Leftover    []string
 	ParkedAtEnd []string
 	Log         []string
+	BranchFrom  int
 }
 
 // Options configure one execution.
@@ -541,6 +555,7 @@ func RunOne(prefix []int, opt Options, body func(s *Sched) (check func() []strin
 		}
 	}
 	res.Steps = s.Steps
+	res.BranchFrom = s.BranchFrom
 	res.Violations = s.Violations
 	res.Diverged = s.Diverged
 	res.Log = s.Log
